@@ -136,6 +136,11 @@ pub fn c06_programs() -> Vec<Arc<Prog>> {
         ),
         // delete + put in one batch
         p3("batch-del-put||snapread", pre.clone(), vec![vec![Batch(vec![(0, None), (2, Some(7))])], vec![SnapRead(vec![0, 2])]], big),
+        // plain gets are single-key observations, but the pair must still be linearizable with the
+        // batch as one atomic write (first key new, then second key old = not explainable)
+        p3("batch2||get+get", pre.clone(), vec![vec![Batch(vec![(0, Some(3)), (1, Some(4))])], vec![Get(0), Get(1)]], big),
+        p3("batch3||get+get+get", pre.clone(), vec![vec![Batch(vec![(0, Some(3)), (1, Some(4)), (2, Some(5))])], vec![Get(2), Get(1), Get(0)]], big),
+        p3("batch2-rotating||get+get", pre.clone(), vec![vec![Batch(vec![(0, Some(3)), (1, Some(4))])], vec![Get(1), Get(0)]], rot_cfg()),
         // two observations by one reader
         p3("batch2||snapread+iterscan", pre, vec![vec![Batch(vec![(0, Some(3)), (1, Some(4))])], vec![SnapRead(vec![0, 1]), IterScan]], big),
     ]
@@ -310,9 +315,9 @@ pub fn c06(tier: &str) -> ! {
     let t = tier == "thorough";
     let own = |c: &str| c.starts_with("C06.") || c.starts_with("C05.");
     if t {
-        run_sched(&mut rep, "batches/p2d4", &c06_programs(), (2, 4), 16, true, 2, Duration::from_secs(2400), own);
+        run_sched(&mut rep, "batches/p3d5", &c06_programs(), (3, 5), 16, true, 2, Duration::from_secs(2400), own);
     } else {
-        run_sched(&mut rep, "batches/p1d3", &c06_programs(), (1, 3), 4, true, 1, Duration::from_secs(45), own);
+        run_sched(&mut rep, "batches/p2d4", &c06_programs(), (2, 4), 8, true, 1, Duration::from_secs(45), own);
     }
     for a in SCHED_ASSUMPTIONS {
         rep.assume(a);
